@@ -10,9 +10,11 @@
 -/
 import Wbxml.Props.C06
 import Wbxml.Lemmas.EncWRt
+import Wbxml.Lemmas.RtNorm
+import Wbxml.Lemmas.RtSecond
 set_option maxRecDepth 100000
 namespace Wbxml.Props.C03
-open Wbxml Wbxml.Model Wbxml.Spec Wbxml.Lemmas.EncW Wbxml.Lemmas.ParseSer
+open Wbxml Wbxml.Model Wbxml.Spec Wbxml.Lemmas.EncW Wbxml.Lemmas.ParseSer Wbxml.Lemmas.Rt
 
 /-- **`rt_header`.** For EVERY tree the encoder accepts: the output starts with a header `hd` of
     the requested version announcing UTF-8, and whenever `wbxml_tree_from_wbxml` accepts the
@@ -136,6 +138,184 @@ theorem rt_events_view_partial (cfg : X2WCfg) (t : Tree) (bs : Bytes) (lang : La
   obtain ⟨_, r1, _, r3⟩ := hk (pcfgOf main forced metaCs) h1 h2 (charsets_ok main forced metaCs _ h2) h3 h4
   exact ⟨r1, r3⟩
 
+/-! ## Tree level -/
+
+/-- **Builder reconstruction** (item 1 of the former "missing" list). Over the events the
+    specification assigns to a document `d` in which no element is called `Data`, the tree builder
+    of `wbxml_tree_from_wbxml` (`buildStep`, `addKid`) succeeds and delivers exactly the tree read
+    off `d` by structural recursion (`treeOfEventsSpec` / `nodeOfElem`): one element node per
+    element with the reader's name and attributes, one text node per maximal run of non-empty
+    character data, processing instructions dropped. Every item kind of the grammar is covered
+    (strings, entities, extensions, opaque data all arrive as character data); the only
+    restriction is `noDataEvents`, which makes `syncmlDataType` answer `normal` at every
+    character-data event (no CDATA node, no embedded tree). -/
+theorem build_reconstructs (main : List Lang) (emb : Nat → Bytes → Option Tree) (pcfg : PCfg) (d : Doc) (t : Tree)
+    (ht : treeOfEventsSpec main pcfg d = some t) (hnd : noDataEvents (Spec.events pcfg d) = true) :
+    treeOfEvents main emb (Spec.events pcfg d) = .ok t := by
+  unfold treeOfEventsSpec at ht
+  cases hl : headerLang pcfg d.hdr with
+  | none => rw [hl] at ht; cases ht
+  | some l =>
+    rw [hl] at ht; injection ht with ht; subst ht
+    unfold treeOfEvents
+    rw [run_doc main emb pcfg d l hl hnd]
+
+/-- The tree read off a document has the XML-level view of the document's events, and is in
+    normal form (no empty text node, no two adjacent text nodes, at any depth). -/
+theorem spec_tree_view (pcfg : PCfg) (d : Doc) (l : Lang) (hl : headerLang pcfg d.hdr = some l) :
+    ntoks (rootOfDoc pcfg d l) = (Spec.events pcfg d).flatMap toks ∧ nfNode (rootOfDoc pcfg d l) = true :=
+  ⟨(events_toks pcfg d l hl).symm, nf_nodeOfElem _ _ _⟩
+
+/-- **`rt_preserves_partial`: the round trip at tree level.** For a plain tree (`plainNode`: no
+    CDATA section, no embedded document) of a plain language (the hypotheses of
+    `rt_events_view_partial`) in which no element is called `Data` (`noDataNode`):
+    `wbxml_tree_from_wbxml` accepts the encoder's output under every reader configuration for
+    which the header selects the language, for every fuel, and the tree it delivers has
+
+      * the language entry the header selects and the header's character set,
+      * a root `r'` in normal form (`nfNode`) with `canon r' = normNode (dcfgOf cfg lang) r`:
+
+    the round-trip tree IS the normalised source tree — same element nesting, same names, same
+    attributes with the same values (C strings with the handlers' trailing NUL) in the same order
+    (none without attribute table), character data `normText`-ed per source text node, empty text
+    dropped, adjacent text merged — up to `canon`, which forgets only whether a name is
+    represented as a table row or as a literal. `r'` is also given explicitly: the tree read off
+    the grammar value the encoder wrote (`rootOfDoc`).
+    `_partial`: see the note at the end of the file (exact table rows of names, `Data`, CDATA /
+    embedded documents, typed content, ActiveSync). -/
+theorem rt_preserves_partial (cfg : X2WCfg) (t : Tree) (bs : Bytes) (lang : Lang) (r : Node)
+    (hlang : t.lang = some lang) (hroot : t.root = some r)
+    (hl : langOk lang = true) (hover : treeOver lang t = true) (h : treeToWbxml cfg t = .ok bs)
+    (hpn : plainNode r = true) (hpl : plainLang lang = true) (hnta : noTypedAttr lang.id = true)
+    (hvs : valSemOk lang = true) (has : attrSemOk lang = true) (hts : tagSemOk lang = true)
+    (han : attrNameSemOk lang = true) (hnd : noDataNode r = true) :
+    ∃ d : Doc, bs = Spec.ser d ∧
+      ∀ (main : List Lang) (f forced metaCs : Nat),
+        headerLang (pcfgOf main forced metaCs) d.hdr = some lang →
+        (headerCharset (pcfgOf main forced metaCs) d.hdr = 3 ∨ headerCharset (pcfgOf main forced metaCs) d.hdr = 106) →
+        cfg.version < 256 → bs.length < 4294967296 →
+        ∃ r' : Node,
+          treeOfWbxml main (f + 1) forced metaCs bs =
+            .ok { lang := main.find? (fun x => x.id == lang.id),
+                  origCharset := headerCharset (pcfgOf main forced metaCs) d.hdr, root := some r' } ∧
+          r' = rootOfDoc (pcfgOf main forced metaCs) d lang ∧ nfNode r' = true ∧
+          canon r' = normNode (dcfgOf cfg lang) r := by
+  obtain ⟨d, hs, hk⟩ := C06.denotes_source_partial cfg t bs lang r hlang hroot hl hover h hpn hpl hnta hvs has hts han
+  refine ⟨d, hs, ?_⟩
+  intro main f forced metaCs h1 h2 h3 h4
+  obtain ⟨_, hres, hev, hview⟩ := hk (pcfgOf main forced metaCs) h1 h2 (charsets_ok main forced metaCs _ h2) h3 h4
+  rw [hev] at hview
+  have hndE : noDataEvents (Spec.events (pcfgOf main forced metaCs) d) = true := by
+    rw [noDataEvents_toks, hview, noData_srcToks, hnd]
+  have hrElt : isElt r = true := by
+    simp only [treeOver, hroot, Bool.and_eq_true] at hover
+    exact hover.1
+  have hrOver : nodeOver lang r = true := by
+    simp only [treeOver, hroot, Bool.and_eq_true] at hover
+    exact hover.2
+  refine ⟨rootOfDoc (pcfgOf main forced metaCs) d lang, ?_, rfl, nf_nodeOfElem _ _ _, ?_⟩
+  · rw [treeOfWbxml]
+    have hp : parse { main := main, langForced := forced, metaCharset := metaCs } bs =
+        parse (pcfgOf main forced metaCs) bs := rfl
+    simp only [hp, hres, hev]
+    rw [run_doc main _ (pcfgOf main forced metaCs) d lang h1 hndE]
+  · have hnames : namesOk (dcfgOf cfg lang).lang r = true := by
+      rw [dcfgOf_lang]; exact namesOk_of_over lang hts han r hrOver
+    have hv : ntoks (rootOfDoc (pcfgOf main forced metaCs) d lang) = ntoks (normNode (dcfgOf cfg lang) r) := by
+      rw [← events_toks _ d lang h1, hview, ntoks_normNode _ r hpn hnames]
+    have := canon_eq_of_ntoks (rootOfDoc (pcfgOf main forced metaCs) d lang) _ (nf_nodeOfElem _ _ _)
+      (nf_normNode (dcfgOf cfg lang) r hpn (isText_of_isElt r hrElt)) (isText_nodeOfElem _ _ _)
+      (by cases r <;> first | rfl | cases hrElt) hv
+    rw [this, canon_normNode]
+
+/-- **Idempotence of the normalisation** — the algebraic core of "the second round trip is the
+    identity": `normNode c (normNode c n) = normNode c n` for EVERY node (any depth, CDATA sections
+    and embedded documents included — they are left alone) whose text nodes outside CDATA are
+    NUL-free (`textsNulFree`: what an XML parser delivers), in every language but the three SyncML
+    ones. Both hypotheses are needed, see `norm_not_idempotent_nul` and
+    `norm_not_idempotent_syncml`. -/
+theorem norm_idempotent (c : WCfg) (hs : isSyncml c.lang.id = false) (n : Node) (h : textsNulFree n = true) :
+    normNode c (normNode c n) = normNode c n := normNode_idem c hs n h
+
+/-! ## The second trip (Expat as a parameter) -/
+
+/-- **Reading the printed tree back** (`_partial`: plain trees in normal form, languages without
+    namespace table, compact or canonical generation — the scope of `ReadsDoc`).
+    Let `t'` be any tree with a root element in normal form (`nfNode`: what `rt_preserves_partial`
+    delivers) whose element names contain no `|` and are not `Data` (`readable`) and whose
+    attributes survive printing (`attrsReadable`: no TAB / LF in a value unless the output is
+    canonical, no name that starts with the XML namespace URI). Assume `ReadsBack env xml c t'`:
+    **the recorded Expat run for the printed text `xml` succeeded and is a conforming reading of
+    the printed tree** — start/end events with the printed names and attributes, character data as
+    printed in any chunking, no CDATA (`Reads`; the canonical such sequence is `xmlEventsOf c t'`).
+    This is the one assumption about Expat, which is not modelled; it is what the C05 check
+    validates on the implementation side (recorded Expat runs of the printer's output against the
+    tree). Then `wbxml_tree_from_xml` succeeds, finds the language through the printed document type
+    (`docTypeFinds`), and its tree `t''` is `readNode` of `t'`, which equals `t'` up to `normNode`
+    for every encoder configuration whose white-space policy absorbs the printer's (`flagsOk`). -/
+theorem xml_read_back_partial (main : List Lang) (lang : Lang) (xcfg : W2XCfg) (wc : WCfg) (t' : Tree) (r' : Node)
+    (fuel k : Nat) (xml : Bytes) (env : List (Bytes × ExpatRun))
+    (hroot : t'.root = some r') (hpl : plainLang lang = true) (hdt : docTypeFinds main lang = true)
+    (hnf : nfNode r' = true) (helt : isElt r' = true) (hre : readable r' = true)
+    (har : attrsReadable (xcfgOf xcfg lang) r' = true)
+    (hwl : wc.lang = lang) (hs : isSyncml lang.id = false) (hf : flagsOk (xcfgOf xcfg lang) wc = true)
+    (hx : treeToXml xcfg fuel t' = .ok xml) (hrb : ReadsBack env xml (xcfgOf xcfg lang) t') :
+    ∃ r'' : Node,
+      treeOfXml main env (k + 1) xml = .ok { lang := some lang, origCharset := 0, root := some r'' } ∧
+      r'' = readNode lang (xcfgOf xcfg lang) r' ∧ normNode wc r'' = normNode wc r' := by
+  refine ⟨readNode lang (xcfgOf xcfg lang) r', ?_, rfl, ?_⟩
+  · exact treeOfXml_readsBack main hpl rfl hdt t' r' hroot hre helt env xml (treeToXml_ne_nil xcfg fuel t' xml hx) hrb k
+  · exact norm_read_node lang (xcfgOf xcfg lang) wc hwl (by rw [hwl]; exact hs) hf r' hnf hre har
+
+/-- **The second trip at tree level.** For a source tree `t` as in `rt_preserves_partial`, with
+    NUL-free text, in a language that is not SyncML: let `t'` be the round-trip tree
+    (`wbxml_tree_from_wbxml` of the encoder's output). If `t'` is printed (`wbxml_tree_to_xml`,
+    compact or canonical, white-space policy absorbed by the encoder's) and Expat reads the text
+    back (`ReadsBack`, see `xml_read_back_partial`), then `wbxml_tree_from_xml` delivers a tree
+    `t''` with `normNode c t'' = normNode c t' = normNode c t = canon t'`: the second trip starts
+    from a tree that is, up to the normalisation, the first round-trip tree — and that tree is
+    already normal (`norm_idempotent`). The hypotheses `readable` / `attrsReadable` are stated for
+    the normalised source tree (they only look at XML names and values). -/
+theorem rt2_tree_partial (cfg : X2WCfg) (t : Tree) (bs : Bytes) (lang : Lang) (r : Node)
+    (hlang : t.lang = some lang) (hroot : t.root = some r)
+    (hl : langOk lang = true) (hover : treeOver lang t = true) (h : treeToWbxml cfg t = .ok bs)
+    (hpn : plainNode r = true) (hpl : plainLang lang = true) (hnta : noTypedAttr lang.id = true)
+    (hvs : valSemOk lang = true) (has : attrSemOk lang = true) (hts : tagSemOk lang = true)
+    (han : attrNameSemOk lang = true) (hnd : noDataNode r = true)
+    (hsy : isSyncml lang.id = false) (hnul : textsNulFree r = true) :
+    ∃ d : Doc, bs = Spec.ser d ∧
+      ∀ (main : List Lang) (f forced metaCs : Nat),
+        headerLang (pcfgOf main forced metaCs) d.hdr = some lang →
+        (headerCharset (pcfgOf main forced metaCs) d.hdr = 3 ∨ headerCharset (pcfgOf main forced metaCs) d.hdr = 106) →
+        cfg.version < 256 → bs.length < 4294967296 →
+        ∃ (t' : Tree) (r' : Node), treeOfWbxml main (f + 1) forced metaCs bs = .ok t' ∧ t'.root = some r' ∧
+          canon r' = normNode (dcfgOf cfg lang) r ∧
+          ∀ (xcfg : W2XCfg) (fuel k : Nat) (xml : Bytes) (env : List (Bytes × ExpatRun)),
+            docTypeFinds main lang = true → flagsOk (xcfgOf xcfg lang) (dcfgOf cfg lang) = true →
+            readable (normNode (dcfgOf cfg lang) r) = true →
+            attrsReadable (xcfgOf xcfg lang) (normNode (dcfgOf cfg lang) r) = true →
+            treeToXml xcfg fuel t' = .ok xml → ReadsBack env xml (xcfgOf xcfg lang) t' →
+            ∃ r'' : Node,
+              treeOfXml main env (k + 1) xml = .ok { lang := some lang, origCharset := 0, root := some r'' } ∧
+              normNode (dcfgOf cfg lang) r'' = normNode (dcfgOf cfg lang) r' ∧
+              normNode (dcfgOf cfg lang) r'' = normNode (dcfgOf cfg lang) r ∧
+              normNode (dcfgOf cfg lang) r'' = canon r' := by
+  obtain ⟨d, hs, hk⟩ := rt_preserves_partial cfg t bs lang r hlang hroot hl hover h hpn hpl hnta hvs has hts han hnd
+  refine ⟨d, hs, ?_⟩
+  intro main f forced metaCs h1 h2 h3 h4
+  obtain ⟨r', ht', hr', hnf, hcanon⟩ := hk main f forced metaCs h1 h2 h3 h4
+  refine ⟨_, r', ht', rfl, hcanon, ?_⟩
+  intro xcfg fuel k xml env hdt hf hre har hx hrb
+  have hre' : readable r' = true := by rw [← readable_canon, hcanon]; exact hre
+  have har' : attrsReadable (xcfgOf xcfg lang) r' = true := by rw [← attrsReadable_canon, hcanon]; exact har
+  have helt : isElt r' = true := by rw [hr']; exact isElt_nodeOfElem _ _ _
+  obtain ⟨r'', hx'', _, hn⟩ := xml_read_back_partial main lang xcfg (dcfgOf cfg lang) _ r' fuel k xml env rfl hpl hdt
+    hnf helt hre' har' (dcfgOf_lang cfg lang) hsy hf hx hrb
+  have hidem : normNode (dcfgOf cfg lang) r' = normNode (dcfgOf cfg lang) r := by
+    rw [← normNode_canon, hcanon]
+    exact normNode_idem _ (by rw [dcfgOf_lang]; exact hsy) r hnul
+  exact ⟨r'', hx'', hn, hn.trans hidem, by rw [hn, hidem, hcanon]⟩
+
 /-! ## Non-vacuity -/
 
 /-- The round trip of C06's example tree under the library's table: accepted, same language,
@@ -147,6 +327,77 @@ example : (match treeToWbxml C06.exCfg C06.exTree with
     | .error _ => false) = true := by decide +kernel
 
 example : headerLang (pcfgOf Gen.main 0 0) Props.C04.exSyncml.hdr = some Gen.lang15 := by decide +kernel
+
+/-! ### Tree level: non-vacuity and counterexamples -/
+
+/-- `build_reconstructs` applies to C04's SyncML example document: a tree is read off it and no
+    element is called `Data`. -/
+example : (treeOfEventsSpec Gen.main Props.C04.exCfg Props.C04.exSyncml).isSome = true ∧
+    noDataEvents (Spec.events Props.C04.exCfg Props.C04.exSyncml) = true := by decide +kernel
+
+/-- `<wml><card id="a"> Hi <!-- two text nodes -->there<b>x</b>  </card></wml>` as a WML 1.3 tree
+    with literal names (the encoder finds the tokens): white space to trim, two adjacent text
+    nodes to merge, a white-space-only text node to drop. -/
+def exWml : Tree where
+  lang := some Gen.lang3
+  origCharset := 106
+  root := some (.elt (.literal b!"wml") [] [
+    .elt (.literal b!"card") [{ name := .literal b!"id", value := b!"a" }] [
+      .text b!" Hi ", .text b!"there", .elt (.literal b!"b") [] [.text b!"x"], .text b!"  "]])
+
+def exWmlRoot : Node :=
+  match exWml.root with
+  | some r => r
+  | none => .text []
+
+/-- All hypotheses of `rt_preserves_partial` hold for `exWml` (WML 1.3 from `Gen.main`). -/
+example : langOk Gen.lang3 = true ∧ treeOver Gen.lang3 exWml = true ∧ plainNode exWmlRoot = true ∧
+    plainLang Gen.lang3 = true ∧ noTypedAttr Gen.lang3.id = true ∧ valSemOk Gen.lang3 = true ∧
+    attrSemOk Gen.lang3 = true ∧ tagSemOk Gen.lang3 = true ∧ attrNameSemOk Gen.lang3 = true ∧
+    noDataNode exWmlRoot = true := by decide +kernel
+
+/-- The normalised example: `<wml><card id="a">Hithere<b>x</b></card></wml>`. -/
+example : plainEq (normNode (dcfgOf {} Gen.lang3) exWmlRoot)
+    (.elt (.literal b!"wml") [] [
+      .elt (.literal b!"card") [{ name := .literal b!"id", value := b!"a\x00" }] [
+        .text b!"Hithere", .elt (.literal b!"b") [] [.text b!"x"]]]) = true := by decide +kernel
+
+/-- … and the conclusion evaluated on it: the round trip under the library's table is accepted,
+    keeps language and character set, and `canon` of its root is the normalised source root. -/
+example : (match treeToWbxml {} exWml with
+    | .ok bs => (match treeOfWbxml Gen.main (bs.length + 1) 0 0 bs with
+      | .ok t' => (match t'.root with
+        | some r' => t'.lang == some Gen.lang3 && t'.origCharset == 106 && nfNode r' &&
+            plainEq (canon r') (normNode (dcfgOf {} Gen.lang3) exWmlRoot)
+        | none => false)
+      | .error _ => false)
+    | .error _ => false) = true := by decide +kernel
+
+/-- Hypotheses of `norm_idempotent` for the example. -/
+example : isSyncml (dcfgOf {} Gen.lang3).lang.id = false ∧ textsNulFree exWmlRoot = true := by decide +kernel
+
+/-- `norm_idempotent` needs NUL-free text: `"a \0b"` is cut to `"a "` by the first pass (C string)
+    and trimmed to `"a"` by the second. -/
+theorem norm_not_idempotent_nul :
+    normNode (dcfgOf {} Gen.lang3) (normNode (dcfgOf {} Gen.lang3) (.elt (.literal b!"p") [] [.text [0x61, 0x20, 0, 0x62]])) ≠
+      normNode (dcfgOf {} Gen.lang3) (.elt (.literal b!"p") [] [.text [0x61, 0x20, 0, 0x62]]) := by
+  intro h
+  have := congrArg ntoks h
+  revert this
+  decide +kernel
+
+/-- `norm_idempotent` excludes SyncML: two adjacent text nodes that spell the DevInf media type
+    only after the reader has merged them are rewritten to `…+wbxml` by the second pass. -/
+theorem norm_not_idempotent_syncml :
+    normNode (dcfgOf {} Gen.lang15)
+        (normNode (dcfgOf {} Gen.lang15)
+          (.elt (.literal b!"Type") [] [.text b!"application/vnd.syncml-devinf", .text b!"+xml"])) ≠
+      normNode (dcfgOf {} Gen.lang15)
+        (.elt (.literal b!"Type") [] [.text b!"application/vnd.syncml-devinf", .text b!"+xml"]) := by
+  intro h
+  have := congrArg ntoks h
+  revert this
+  decide +kernel
 
 /-!
   ## `rt_preserves` — what is missing (kept visible, not claimed)
